@@ -393,7 +393,63 @@ def check(ctx, case):
         ctx.sample({'file': text[:500], 'pattern': f['pattern'], 'history': h, 'chunk_kinds': f['kinds']})
 
 
+def check_repeated_section_text(ctx):
+    """several sections with exactly the same text (a worksheet whose parts start from the same lines): each part's diagnostics are
+    on that part's own lines of the original file"""
+    from pedal.core.commands import clear_report, contextualize_report
+    from pedal.core.report import MAIN_REPORT
+    from pedal.source import verify, separate_into_sections, next_section
+    from pedal.tifa import tifa_analysis
+    from pedal.sandbox import commands as sbx
+    rng = ctx.rng
+    bodies = {'tifa': 'print(never_assigned)\n', 'syntax': 'oops = = 1\n', 'runtime': 'values = [1]\nprint(values[3])\n'}
+    for kind, body in sorted(bodies.items()):
+        for gap in (0, 2):
+            prologue = 'first = 0\nprint(first)\n' + '\n' * gap
+            text = prologue + '##### Part 1\n' + body + '##### Part 2\n' + body + '##### Part 3\n' + body
+            bad_line_in_body = body.count('\n')           # the last line of the body carries the problem
+            for order in ((1, 2, 3), (1, 3), (2, 3)):
+                clear_report()
+                contextualize_report(text)
+                separate_into_sections(independent=True)
+                report = MAIN_REPORT
+                at = 0
+                for part in order:
+                    while at < part:
+                        next_section()
+                        at += 1
+                    marker_line = text[:text.index('##### Part %d' % part)].count('\n') + 1
+                    want = marker_line + bad_line_in_body
+                    n0 = len(report.feedback)
+                    case = {'scenario': 'repeated-section-text', 'kind': kind, 'text': text, 'visited': list(order), 'part': part}
+                    try:
+                        result = None
+                        if kind == 'tifa':
+                            result = tifa_analysis()
+                        elif kind == 'syntax':
+                            verify()
+                        else:
+                            sbx.clear_sandbox()
+                            sbx.run()
+                    except Exception as e:
+                        ctx.violation('C17|tool-raised|%s|%s|repeated-section-text' % (kind, type(e).__name__), case, traceback.format_exc()[-400:])
+                        break
+                    lines = [getattr(fb.location, 'line', None) for fb in report.feedback[n0:]
+                             if fb.label in ('initialization_problem', 'syntax_error') or str(fb.category).lower() == 'runtime']
+                    if result is not None:
+                        # what the analysis of this part answers (its issues are attached to the report when first found)
+                        lines = [getattr(fb.location, 'line', None) for fb in result.issues.get('initialization_problem', [])]
+                    ctx.count('lines_compared')
+                    ctx.count('repeated_section_texts_checked')
+                    ctx.case('repeated:%s:%s:%s:%d' % (kind, gap, order, part))
+                    if lines != [want]:
+                        ctx.violation('C17|wrong-line|%s|independent|section-with-the-same-text-as-an-earlier-one' % kind, case,
+                                      'part %d: the problem is on whole-file line %d; reported lines %s' % (part, want, lines))
+
+
 def run(ctx):
+    if ctx.shard == 1:
+        check_repeated_section_text(ctx)
     from props import sbx_common as sc
     sc.private_cwd()
     rng = ctx.rng
@@ -407,6 +463,8 @@ def run(ctx):
 
 
 def replay(ctx, case):
+    if case.get('scenario') == 'repeated-section-text':
+        return check_repeated_section_text(ctx)
     case = dict(case)
     case.pop('upto', None)
     check(ctx, case)
